@@ -22,7 +22,7 @@ def run_case(params, prefix):
         anc_of_failed = set()
         for j in failed_jobs:
             anc_of_failed |= _recov.ancestors(spec, j)
-        lost = set(run_.lost_jobs)
+        lost = set(run_.lost_jobs) & set(run_.truly_lost)  # a job whose every output kept a physical replica lost nothing
         any_loss = any(f["kind"] == "failstop" for f in params.get("plan") or [])
         for j in _exec.program_jobs(spec):
             n = counts.get(j, 0)
